@@ -289,6 +289,8 @@ type vf2Event struct {
 	Base   int       `json:"base"` // kbuf: first payload number
 	Period int       `json:"period"`
 	KReps  []vf2KRep `json:"kreps"`
+	// Exp: what the ideal model predicts for this step (paths printed by the model checker), passed through to the trace
+	Exp []json.RawMessage `json:"exp"`
 }
 
 type vf2KRep struct {
@@ -494,6 +496,10 @@ func TestVerifL2(t *testing.T) {
 		nscripts++
 		init := s.Events[0]
 		vfNorm(&init.vfEvent)
+		init.Exp = []json.RawMessage{}
+		if init.KReps == nil {
+			init.KReps = []vf2KRep{}
+		}
 		x.takeFatal()
 		st, err := vf2NewStack(k, init.MaxRt, time.Hour)
 		if err != nil {
@@ -519,6 +525,9 @@ func TestVerifL2(t *testing.T) {
 			vfNorm(&e.vfEvent)
 			if e.KReps == nil {
 				e.KReps = []vf2KRep{}
+			}
+			if e.Exp == nil {
+				e.Exp = []json.RawMessage{}
 			}
 			r.resolve(&e.vfEvent)
 			n0 := x.gate.count()
